@@ -23,8 +23,8 @@ def z3mod():
     return _z3
 
 
-def quick_check(assertions, timeout_ms=1500):
-    """returns 'sat' / 'unsat' / 'unknown' using in-process z3"""
+def quick_check(assertions, timeout_ms=1500, want_model=False):
+    """returns ('sat'|'unsat'|'unknown', model|None) using in-process z3"""
     z3 = z3mod()
     text, em = T.to_smt(assertions, want_model=False)
     text = text.replace('(check-sat)', '')
@@ -41,17 +41,18 @@ def quick_check(assertions, timeout_ms=1500):
         STATS['inproc_time'] += time.time() - t0
     rs = str(r)
     if rs == 'sat':
+        if not want_model:
+            return 'sat', None
         m = s.model()
         model = {}
-        for d in m.decls():
-            v = m[d]
+        for name, (sort, _, _) in em.vars.items():
+            c = z3.Int('i_' + name) if sort == 'Int' else z3.Bool('i_' + name)
+            v = m.eval(c, model_completion=True)
             try:
-                if z3.is_int_value(v):
-                    model[d.name()] = v.as_long()
-                elif z3.is_true(v):
-                    model[d.name()] = True
-                elif z3.is_false(v):
-                    model[d.name()] = False
+                if sort == 'Int':
+                    model[name] = v.as_long()
+                else:
+                    model[name] = z3.is_true(v)
             except Exception:
                 pass
         return 'sat', model
@@ -71,13 +72,16 @@ def parse_model(out):
     model = {}
     for m in _val_re.finditer(out):
         v = m.group(2)
+        nm = m.group(1)
+        if nm.startswith('i_'):
+            nm = nm[2:]
         if v == 'true':
-            model[m.group(1)] = True
+            model[nm] = True
         elif v == 'false':
-            model[m.group(1)] = False
+            model[nm] = False
         else:
             v = v.replace('(', '').replace(')', '').replace(' ', '')
-            model[m.group(1)] = int(v)
+            model[nm] = int(v)
     return model
 
 
@@ -121,7 +125,7 @@ def portfolio(text, var_names, timeout=60, solvers=('cvc5', 'z3-new'), keep=None
     (unless want_all, used for cross-checking).  Returns dict(verdict, model, solver, times)."""
     full = text
     if var_names:
-        full += '\n(get-value (%s))' % ' '.join('|%s|' % v for v in var_names)
+        full += '\n(get-value (%s))' % ' '.join('|i_%s|' % v for v in var_names)
     full += '\n'
     if keep:
         path = keep
